@@ -88,11 +88,11 @@ pub fn c04(opts: &Opts, out: &mut Out) {
         let key = inst.describe();
         let stmt = inst.statement();
         // prover run with the tap
-        let tr = inst.transcript();
+        let mut tr = inst.transcript();
         let pid = tr.shadow_id;
         let ctx_events: Vec<String> = tr.shadow.iter().filter_map(ev_str).collect();
         tap::start();
-        let proof = if matches!(kind, RngKind::Os) { Proof::prove(&mut { tr }, &stmt, &inst.witness()) } else { Proof::prove_with_rng(&mut { tr }, &stmt, &inst.witness(), &mut TestRng::new(kind.clone())) };
+        let proof = if matches!(kind, RngKind::Os) { Proof::prove(&mut tr, &stmt, &inst.witness()) } else { Proof::prove_with_rng(&mut tr, &stmt, &inst.witness(), &mut TestRng::new(kind.clone())) };
         let precs = tap::take();
         let Ok(proof) = proof else {
             out.oracle("C04:prove-ok", false, &key, "prover failed");
@@ -101,15 +101,29 @@ pub fn c04(opts: &Opts, out: &mut Out) {
         let parts = fmx::parts(&proof);
         let pev = events_of(&precs, pid);
         out.req(model_req("prover", &ctx_events, &inst, &stmt, &parts), format!("ev={}", pev.join(",")));
+        // the state left in the CALLER's transcript: everything absorbed under its identity up to the last challenge is
+        // in the caller's object afterwards (a protocol that goes on using the transcript is bound to the proof), and a
+        // challenge drawn from it differs from one drawn from the untouched context
+        let upto_last = |ev: &Vec<String>| -> Vec<String> { ev.iter().rposition(|e| e.starts_with("c.")).map(|i| ev[..=i].to_vec()).unwrap_or_default() };
+        let post_state_ok = |t: &merlin::Transcript, ev: &Vec<String>| -> bool {
+            let own: Vec<String> = t.shadow.iter().filter_map(ev_str).collect();
+            let want: Vec<String> = ctx_events.iter().cloned().chain(upto_last(ev).into_iter()).collect();
+            own.len() >= want.len() && own[..want.len()] == want[..]
+        };
+        let post_challenge = |t: &merlin::Transcript| -> [u8; 32] { let mut c = t.clone(); let mut b = [0u8; 32]; c.challenge_bytes(b"post-state", &mut b); b };
+        let untouched = post_challenge(&inst.transcript());
+        out.oracle("C04:caller-transcript-carries-the-proof", post_state_ok(&tr, &pev) && post_challenge(&tr) != untouched, &format!("{} side=prover", key), "after a successful prover call the caller's transcript does not hold what was absorbed: later challenges of the caller do not depend on the proof");
         // verifier run with the tap
         let tr = inst.transcript();
         let vid = tr.shadow_id;
         tap::start();
-        let vr = Proof::verify_batch(&mut [tr], std::slice::from_ref(&stmt), std::slice::from_ref(&proof), VerifyAction::VerifyOnly);
+        let mut vts = [tr];
+        let vr = Proof::verify_batch(&mut vts, std::slice::from_ref(&stmt), std::slice::from_ref(&proof), VerifyAction::VerifyOnly);
         let vrecs = tap::take();
         out.oracle("C04:honest-verifies", vr.is_ok(), &key, "honest proof rejected");
         let vev = events_of(&vrecs, vid);
         out.req(model_req("verifier", &ctx_events, &inst, &stmt, &parts), format!("ev={}", vev.join(",")));
+        out.oracle("C04:caller-transcript-carries-the-proof", post_state_ok(&vts[0], &vev) && post_challenge(&vts[0]) != untouched, &format!("{} side=verifier", key), "after a successful verifier call the caller's transcript does not hold what was absorbed");
 
         // single-datum perturbations: every challenge drawn after the datum must change
         let (base, _) = verifier_challenges(inst.transcript(), &stmt, &proof);
